@@ -17,6 +17,7 @@ import (
 //        parameters cover the criteria)
 //   oracle answered   : an in-domain request is answered with a ranking (failures are classified;
 //        known classes are registered findings)
+//   stage decide (corr): the whole MakeDecision through the real registries vs Model/Decide.lean (c07e2e.go)
 //   oracle frame      : alternatives and their split never change; criteria change only as reported;
 //        earlier value changes stay in force after biases that do not rewrite those values
 
@@ -220,5 +221,6 @@ func init() {
 				o.Spec(ms, L(A("check-c07"), A(tr.Eval.SX)))
 			}
 		}
+		e2eDecideAll(o, r, n) // whole MakeDecision vs Model/Decide.lean (c07e2e.go); after the loop: the cases above keep their stream
 	}
 }
